@@ -1361,3 +1361,183 @@ class C12(Prop):
 
 
 register(C12())
+
+
+# ======================================================================================
+# C07 - backward releases the whole graph; gradients never go stale
+# ======================================================================================
+class C07(Prop):
+    id = "C07"
+    title = "backward releases the whole graph; gradients never go stale"
+    rule = (
+        "training-loop histories: persistent leaves, per iteration a DAG/mutation program over them (views of leaves, in-place updates on "
+        "intermediates and leaves, masked out=, .shape=), backward, optional leaf update (tracked in-place or inside no_autodiff), null_grad, "
+        "re-use of leaves; verbatim repeated iterations; handle-drop order varied; cyclic GC disabled (lane R) or driven by events and "
+        "pre-emption (lane G).  non-trivial when the release oracle judged >=1 backward whose graph contained an in-place placeholder or >=3 "
+        "ops; distinct by (event kind, outcome)"
+    )
+    expected_probes = ["c07.graph_fully_released", "c07.lifetime_checked", "c07.repeat_identical", "grad.judged_backward"]
+
+    def generate(self, rng):
+        cfg = {
+            "lane": rng.choice(["R", "R", "G"]),
+            "id_policy": "never",
+            "max_elems": rng.choice([6, 12]),
+            "max_ndim": rng.choice([1, 2]),
+            "dtypes": rng.choice([["f8"], ["f8"], ["f8", "f4"]]),
+            "tape": True,
+            "exact": rng.random() < 0.5,
+        }
+        if cfg["exact"]:
+            cfg["dtypes"] = ["f8"]
+        if cfg["lane"] == "G":
+            cfg["gc_preempt_p"] = rng.choice([0.05, 0.15])
+            cfg["id_policy"] = rng.choice(["never", "lifo"])
+        g = Gen(rng, cfg)
+        leaves = [g.leaf(shape=g.rand_shape(min_ndim=1)) for _ in range(rng.randint(1, 3))]
+        n_iter = rng.randint(2, 5)
+        it_id = 0
+        last_body = None
+        for it in range(n_iter):
+            start = len(g.ev)
+            h0 = g.next_h
+            repeat = last_body is not None and rng.random() < 0.35
+            if repeat:
+                # verbatim repetition with fresh handles for the intermediates
+                body, lo, hi = last_body
+                off = g.next_h - lo
+                for e in body:
+                    g.emit(_rename_range(e, lo, hi, off))
+                g.next_h = hi + off
+                if g.tracking:
+                    g.epoch += sum(1 for e in body if e["k"] == "backward")
+                g.emit({"k": "iter_end", "id": it_id, "leaves": leaves, "rep_of": it_id - 1})
+                it_id += 1
+                last_body = None
+                # forget generator state of the repeated intermediates
+                continue
+            lo = g.next_h
+            mut_leaf = self._iteration(g, rng, leaves, cfg)
+            hi = g.next_h
+            body = g.ev[start:]
+            g.emit({"k": "iter_end", "id": it_id, "leaves": leaves, "rep_of": None})
+            it_id += 1
+            # the iteration can be repeated verbatim only if it leaves the leaves' values alone and
+            # refers only to leaves and its own intermediates
+            ok = not mut_leaf and all(self._refs_ok(e, leaves, lo, hi) for e in body)
+            last_body = (body, lo, hi) if ok else None
+            # drop intermediates (some, all, none)
+            c = rng.random()
+            for h in [h for h in g.tensors() if h not in leaves]:
+                if c < 0.5 or (c < 0.8 and rng.random() < 0.5):
+                    g.drop_t(h, cycle=(cfg["lane"] == "G" and rng.random() < 0.2))
+            if cfg["lane"] == "G" and rng.random() < 0.4:
+                g.gc()
+            # between iterations: update leaves / null_grad / nothing
+            u = rng.random()
+            if u < 0.3:
+                self._update_leaves(g, rng, leaves)
+                last_body = None
+            elif u < 0.5:
+                g.emit({"k": "null_grad", "tgt": rng.choice(leaves)})
+        add_faults(g, g.ev, rng, cfg)
+        return {"prop": self.id, "cfg": cfg, "events": g.ev}
+
+    @staticmethod
+    def _refs_ok(e, leaves, lo, hi):
+        hs = _ev_deps(e) + ([e["out"]] if "out" in e else [])
+        return all(h in leaves or lo <= h < hi for h in hs) and e["k"] in ("op", "terminal", "backward", "inplace", "setshape", "drop", "nnet", "leaf")
+
+    def _iteration(self, g, rng, leaves, cfg):
+        """one forward/backward step; returns True if a leaf's value was mutated"""
+        mutated = False
+        fresh = []
+        n = rng.randint(2, 9)
+        w = [("read", 5), ("view", 3), ("setitem", 1.5), ("iop", 1), ("ufunc", 1), ("leaf", 0.3), ("setshape", 0.2), ("drop", 0.5)]
+        eg = EpochGen(g, {"weights": {}, "adv_p": 0.3})
+        for _ in range(n):
+            k = g.wchoice(w)
+            pool = [h for h in leaves + fresh if h in g.t]
+            if not pool:
+                break
+            src = g.choice(pool)
+            if k == "read":
+                h = eg._read(src)
+            elif k == "view":
+                h = g.op_view(src)
+            elif k == "leaf":
+                h = g.leaf()
+            elif k == "drop":
+                cand = [x for x in fresh if x in g.t]
+                if cand and len(cand) > 1:
+                    g.drop_t(g.choice(cand))
+                h = None
+            elif k == "setshape":
+                if src not in leaves:
+                    g.setshape(src)
+                h = None
+            else:
+                if g.t[src].val.dtype.kind != "f":
+                    continue
+                fam_has_leaf = any(np.shares_memory(g.t[src].val, g.t[l].val) for l in leaves if l in g.t and g.t[l].val.size and g.t[src].val.size)
+                r = getattr(g, {"setitem": "inplace_setitem", "iop": "inplace_iop", "ufunc": "inplace_ufunc"}[k])(src)
+                if r is not None and fam_has_leaf:
+                    mutated = True
+                h = None
+            if h is not None:
+                fresh.append(h)
+        terms = [h for h in fresh if h in g.t and g.t[h].val.dtype.kind == "f"]
+        for l in leaves:
+            if l in g.t and (mutated or rng.random() < 0.5):
+                terms.append(l)  # (a mutated leaf must be upstream of L, else its graph is left half-cleared)
+        L = eg._terminal(terms)
+        if L is not None:
+            g.backward(L)
+        return mutated
+
+    def _update_leaves(self, g, rng, leaves):
+        how = rng.choice(["tracked", "no_autodiff", "no_autodiff"])
+        evs = []
+        for l in leaves:
+            if l not in g.t or rng.random() < 0.3:
+                continue
+            step = {"c": 0.5 if not g.exact else 1.0}
+            evs.append({"k": "inplace", "form": rng.choice(["isub", "iadd"]), "tgt": l, "args": [step]})
+            f = np.subtract if evs[-1]["form"] == "isub" else np.add
+            g._cow(l) if how == "tracked" else None
+            f(g.t[l].val, step["c"], out=g.t[l].val)
+        if not evs:
+            return
+        if how == "tracked":
+            for e in evs:
+                g.emit(e)
+        else:
+            g.emit({"k": "scope", "mgr": "no_autodiff", "style": rng.choice(["with", "deco"]), "body": evs, "raise": False})
+
+    def observers(self, hist):
+        return [O.GradOracle("C07"), O.ReleaseOracle(), O.GradLifetimeOracle(), O.RepeatOracle()]
+
+    def nontrivial(self, world):
+        return world.probes.get("c07.graph_fully_released", 0) + world.probes.get("c07.graph_released_except_retained", 0) > 0
+
+
+def _rename_range(ev, lo, hi, off):
+    import copy
+
+    e = copy.deepcopy(ev)
+
+    def m(h):
+        return h + off if lo <= h < hi else h
+
+    for key in ("out", "tgt", "h"):
+        if key in e:
+            e[key] = m(e[key])
+    for r in e.get("args", []):
+        if "t" in r:
+            r["t"] = m(r["t"])
+    if e["k"] == "terminal":
+        e["terms"] = [[m(h), c] for h, c in e["terms"]]
+    return e
+
+
+register(C07())
